@@ -4,7 +4,7 @@ Values are immutable trees; memory is a dict addr -> value so that states can be
 merged cheaply.  Symbolic branches fork and re-join at the immediate post-dominator with
 if-then-else merging; panics become obligations.  Anything not understood raises Inconclusive.
 """
-import re, itertools
+import re, itertools, os
 import z3
 from . import mir
 from .mir import MirSyntax, norm_ty
@@ -111,6 +111,24 @@ def _k(x):
     return x
 
 
+class LazySeq:
+    """read-only sequence given by a function of the (possibly symbolic) index: models large tables"""
+    __slots__ = ('n', 'get', 'what')
+
+    def __init__(self, n, get, what=''):
+        self.n, self.get, self.what = n, get, what
+
+    def __repr__(self):
+        return 'LazySeq(%s,%s)' % (self.n, self.what)
+
+
+class CutReached(Exception):
+    """raised by a cut handler to stop symbolic execution at a cut point (state captured)"""
+
+    def __init__(self, st, fr, info=None):
+        self.st, self.fr, self.info = st, fr, info
+
+
 class Str:
     __slots__ = ('s',)
 
@@ -150,6 +168,25 @@ VARIANTS = {
     'PrimeFieldDecodingError': {'NotInField': 0},
     'ErrorKind': None,
 }
+
+
+DEFAULT_ASSOC = {}
+for _g, _b in (('g1', 'fq::Fq'), ('g2', 'fq2::Fq2')):
+    _P, _A = 'ec::%s::%s' % (_g, _g.upper()), 'ec::%s::%sAffine' % (_g, _g.upper())
+    for _self in (_P, _A):
+        for _tr in ('CurveProjective', 'CurveAffine'):
+            DEFAULT_ASSOC['<%s as %s>::Base' % (_self, _tr)] = _b
+            DEFAULT_ASSOC['<%s as %s>::Scalar' % (_self, _tr)] = 'fr::Fr'
+            DEFAULT_ASSOC['<%s as %s>::Engine' % (_self, _tr)] = 'Bls12'
+    DEFAULT_ASSOC['<%s as CurveProjective>::Affine' % _P] = _A
+    DEFAULT_ASSOC['<%s as CurveAffine>::Projective' % _A] = _P
+    DEFAULT_ASSOC['<%s as CurveAffine>::Prepared' % _A] = 'ec::%s::%sPrepared' % (_g, _g.upper())
+    DEFAULT_ASSOC['<%s as CurveAffine>::Uncompressed' % _A] = 'ec::%s::%sUncompressed' % (_g, _g.upper())
+    DEFAULT_ASSOC['<%s as CurveAffine>::Compressed' % _A] = 'ec::%s::%sCompressed' % (_g, _g.upper())
+DEFAULT_ASSOC['<fr::Fr as PrimeField>::Repr'] = 'fr::FrRepr'
+DEFAULT_ASSOC['<fr::Fr as ff::PrimeField>::Repr'] = 'fr::FrRepr'
+DEFAULT_ASSOC['<fq::Fq as PrimeField>::Repr'] = 'fq::FqRepr'
+DEFAULT_ASSOC['<fq::Fq as ff::PrimeField>::Repr'] = 'fq::FqRepr'
 
 
 def is_sym(x):
@@ -375,18 +412,67 @@ class Executor:
                 if '{closure#' in name and f.params:
                     m = re.search(r'\{closure@[^}]*\}', f.params[0][1])
                     if m:
-                        self.closure_index[m.group(0)] = f
+                        self.closure_index.setdefault(m.group(0), []).append(f)
         self.by_method = {}
         for name, fl in fns.items():
             meth = name.rsplit('::', 1)[-1]
             for f in fl:
                 self.by_method.setdefault(meth, []).append(f)
         self.trace = None
+        self.fn_stack = []
+        self.cuts = {}             # (fn name, block) -> handler(ex, st, fr, nvisit); may edit the state or raise CutReached
         self.adt_hooks = []
 
     def add_adt_hook(self, pat, h):
         self.adt_hooks.append((re.compile(pat), h))
         self.const_cache.clear()
+
+    # ---------------------------------------------------------- cut-point helpers
+    def closure_body(self, ty):
+        cands = self.closure_index.get(ty) or []
+        if len(cands) == 1:
+            return cands[0]
+        if not cands:
+            return None
+        # same source span instantiated several times (macro): take the one defined inside the current function
+        cur = self.fn_stack[-1].name if self.fn_stack else ''
+        best = [f for f in cands if f.name.startswith(cur + '::{closure')]
+        if len(best) == 1:
+            return best[0]
+        pref = sorted(cands, key=lambda f: -len(os.path.commonprefix([f.name, cur])))
+        if len(pref) > 1 and len(os.path.commonprefix([pref[0].name, cur])) == len(os.path.commonprefix([pref[1].name, cur])):
+            raise Inconclusive('ambiguous closure body for ' + ty)
+        return pref[0]
+
+    def fns_named(self, meth):
+        return list(self.by_method.get(meth, []))
+
+    def fn_by_name(self, name, nparams=None):
+        fl = self.fns.get(name) or [f for n, l in self.fns.items() if n.endswith('::' + name) or n == name for f in l]
+        if nparams is not None:
+            fl = [f for f in fl if len(f.params) == nparams]
+        if len(fl) != 1:
+            raise Inconclusive('function %s: %d bodies' % (name, len(fl)))
+        return fl[0]
+
+    def blocks_calling(self, f, callee_re):
+        """blocks of f whose terminator is a call to something matching callee_re"""
+        out = []
+        pat = re.compile(callee_re)
+        for bb, (stmts, term) in f.blocks.items():
+            try:
+                t = mir.parse_term(term)
+            except MirSyntax:
+                continue
+            if t[0] == 'call' and pat.search(t[2]):
+                out.append(bb)
+        return sorted(out, key=lambda b: int(b[2:]))
+
+    def local_ref(self, fr, debug_name):
+        loc = fr.fn.debug.get(debug_name)
+        if loc is None or not re.fullmatch(r'_\d+', loc):
+            raise Inconclusive('no simple local for debug name %s in %s (%r)' % (debug_name, fr.fn.name, loc))
+        return Ref((fr.id, loc))
 
     # ---------------------------------------------------------- memory
     def alloc(self, st, val, tag='heap'):
@@ -420,6 +506,8 @@ class Executor:
             raise Inconclusive('downcast on %r' % (v,))
         if k == 'i':
             i = el[1]
+            if isinstance(v, LazySeq):
+                return v.get(i if isinstance(i, BV) else BV(64, False, i))
             if not isinstance(v, Agg):
                 raise Inconclusive('index on %r' % (v,))
             if isinstance(i, BV):
@@ -523,6 +611,8 @@ class Executor:
         v = self.load(st, ref)
         if isinstance(v, Agg):
             return len(v.f)
+        if isinstance(v, LazySeq):
+            return v.n
         raise Inconclusive('length of %r' % (v,))
 
     def bv_add(self, a, b):
@@ -555,6 +645,8 @@ class Executor:
             if m.group(2) == 'MAX':
                 return BV(w, s, (1 << (w - 1)) - 1 if s else (1 << w) - 1)
             return BV(w, s, (1 << (w - 1)) if s else 0)
+        if c.startswith('ZeroSized: {closure@'):
+            return Agg(c[len('ZeroSized: '):], ())
         if c.startswith('"'):
             return Str(c[1:-1])
         if c.startswith('b"'):
@@ -614,7 +706,7 @@ class Executor:
             # suffix match on path segments
             n = min(len(cs), len(segs))
             k = 0
-            while k < n and cs[-1 - k] == segs[-1 - k]:
+            while k < n and (cs[-1 - k] == segs[-1 - k] or cs[-1 - k].startswith('<impl at')):
                 k += 1
             if k == len(cs) or (k >= 1 and k == len(segs)):
                 if best is None or k > best[0]:
@@ -629,17 +721,22 @@ class Executor:
 
     # ---------------------------------------------------------- types / generics
     def subst_ty(self, t, subst):
-        if not subst:
-            return t
-        for k in sorted(subst, key=len, reverse=True):
+        for k in sorted(subst or {}, key=len, reverse=True):
             v = subst[k]
             if re.match(r'^\w+$', k):
                 t = re.sub(r'(?<![\w:])' + re.escape(k) + r'(?![\w])', v, t)
             else:
                 t = t.replace(k, v)
-        # resolve known associated types
-        for k, v in self.assoc_types.items():
-            t = t.replace(k, v)
+        # resolve known associated types (innermost first, repeat for nesting)
+        if '<' in t and ' as ' in t:
+            for _ in range(3):
+                t0 = t
+                for k, v in self.assoc_types.items():
+                    t = t.replace(k, v)
+                for k, v in DEFAULT_ASSOC.items():
+                    t = t.replace(k, v)
+                if t == t0:
+                    break
         return t
 
     def value_type(self, st, v):
@@ -960,6 +1057,10 @@ class Executor:
                 raise Inconclusive('returned before reaching join %s in %s' % (stop, f.name))
             n = fr.visits.get(bb, 0) + 1
             fr.visits[bb] = n
+            if self.cuts:
+                hnd = self.cuts.get((f.name, bb))
+                if hnd is not None:
+                    hnd(self, st, fr, n)
             if n > self.unroll_limit:
                 # unwinding obligation: this point must be unreachable
                 self.oblige(st, 'unwind', False, 'loop bound %d exceeded' % self.unroll_limit, (f.name, bb))
@@ -1139,7 +1240,11 @@ class Executor:
             st.mem[(fr.id, pn)] = a
         if self.trace:
             self.trace(f, args)
-        self.run_region(st, fr, 'bb0', 'EXIT')
+        self.fn_stack.append(f)
+        try:
+            self.run_region(st, fr, 'bb0', 'EXIT')
+        finally:
+            self.fn_stack.pop()
         ret = st.mem.get((fr.id, '_0'), UNIT)
         for a in [a for a in st.mem if a[0] == fr.id]:
             del st.mem[a]
@@ -1182,7 +1287,10 @@ class Executor:
                     else:
                         # Self is not mentioned in the signature at all (e.g. methods of the unit struct Bls12):
                         # accept weakly iff this is the only body with that method name and arity
-                        if len(cands) != 1:
+                        modp = '::'.join(st_.split('::')[:-1])
+                        if modp and f.name.startswith(modp + '::'):
+                            sc += 1
+                        elif len(cands) != 1:
                             return -1
             else:
                 # free function or trait default method
@@ -1196,7 +1304,16 @@ class Executor:
                     sc += 3
                 else:
                     return -1
-            for (pn, pt), at in zip(f.params, argtys):
+            for (pn, pt), at, av in zip(f.params, argtys, args):
+                if isinstance(av, BV):
+                    if pt in INT_TYPES:
+                        if INT_TYPES[pt] == (av.w, av.s):
+                            sc += 1
+                        else:
+                            return -1
+                    elif re.match(r'^[\w:]+$', pt) and '::' in pt:
+                        return -1
+                    continue
                 if at is None:
                     continue
                 core = _strip_generics(re.sub(r'^(&(mut )?)+', '', pt))
